@@ -209,6 +209,26 @@ def code_to_spec(ctx, sutils, boxplot, ncases):
             recs.append({"kind": "box", "col": [NAN if np.isnan(v) else PINF if v == np.inf else NINF if v == -np.inf else int(v) for v in col],
                          "bcov": int(round(bcov * 10)), "wcov": int(round(wcov * 10)), "count": cnt, "stats": [to_rat(v, dmax=4000) for v in vals]})
         ctx.count(recs[-1], True)
+    # violin summaries of columns of one to several hundred values (odd and even sizes)
+    from hydrodiy.plot import violinplot
+    for n in ([5, 100, 101, 151, 250, 499, 501] if ctx.tier == "quick" else [4, 5, 99, 100, 101, 137, 151, 250, 333, 499, 500, 501, 777]):
+        col = rng.integers(-5, 20, size=n).astype(float)
+        col[rng.random(n) < 0.05] = np.nan
+        col[rng.random(n) < 0.03] = np.inf
+        np.random.seed(n)
+        try:
+            with warnings.catch_warnings(), np.errstate(all="ignore"):
+                warnings.simplefilter("ignore")
+                vl = violinplot.Violin(pd.DataFrame({"a": col}))
+            st = vl.stats["a"]
+            ky = vl.kde_y["a"].values
+            if not (np.all(np.isfinite(ky)) and abs(np.min(ky)) < 1e-12 and abs(np.max(ky) - 1) < 1e-12):
+                ctx.violation("Violin.kde:normalisation", "density profile min %r max %r for %d values" % (np.nanmin(ky), np.nanmax(ky), n), {"n": n})
+            recs.append({"kind": "violin", "col": [NAN if np.isnan(v) else PINF if v == np.inf else int(v) for v in col],
+                         "stats": [to_rat(st[k], dmax=4000) for k in ("Q0", "Q25", "median", "Q75", "Q100")]})
+            ctx.count({"violin": n}, True)
+        except Exception as e:
+            ctx.violation("Violin:exception:size", "Violin of a column of %d values raised %s" % (n, type(e).__name__), {"n": n, "error": repr(e)[:200]})
     # the standard-normal ranks must be the data ranks
     for r in recs:
         if r["kind"] == "stdnorm" and r["ranks2"] != r.pop("xrank2"):
